@@ -39,6 +39,19 @@ def _norm(e: ast.AST, env) -> str:
     return ast.unparse(au.expand(e, env))
 
 
+def _container_root(e: ast.AST) -> ast.AST:
+    """`C[:-1]`, `list(C)`, `set(C)`, `C.copy()` all test membership in (part of) C."""
+    while True:
+        if isinstance(e, ast.Subscript) and isinstance(e.slice, ast.Slice):
+            e = e.value
+        elif isinstance(e, ast.Call) and isinstance(e.func, ast.Name) and e.func.id in ("list", "tuple", "set", "frozenset", "reversed") and len(e.args) == 1:
+            e = e.args[0]
+        elif isinstance(e, ast.Call) and isinstance(e.func, ast.Attribute) and e.func.attr == "copy" and not e.args:
+            e = e.func.value
+        else:
+            return e
+
+
 class _Visit:
     """Facts extracted from a visit function (one that guards re-entrance with a
     pending set)."""
@@ -47,16 +60,17 @@ class _Visit:
         self.fi = fi
         self.env = au.local_env(fi.node)
         self.pending_sets: Dict[str, List[ast.Call]] = {}  # normalised set expr -> add calls
-        for call, b in pat.find("$S.add($X)", fi.node):
-            s = _norm(b["S"], self.env)
-            # role: the same function tests `X in S` and raises/fails on the true branch
-            if self._has_circular_check(s, b["X"]):
-                self.pending_sets.setdefault(s, []).append(call)
+        for ins in ("$S.add($X)", "$S.append($X)"):
+            for call, b in pat.find(ins, fi.node):
+                s = _norm(b["S"], self.env)
+                # role: the same function tests `X in S` (or in a slice / re-listing of S) and raises/fails on the true branch
+                if self._has_circular_check(s, b["X"]):
+                    self.pending_sets.setdefault(s, []).append(call)
 
     def _has_circular_check(self, s: str, x: ast.AST) -> bool:
         for n in au.walk_no_nested(self.fi.node):
             if isinstance(n, ast.If) and isinstance(n.test, ast.Compare) and len(n.test.ops) == 1 and isinstance(n.test.ops[0], ast.In):
-                if _norm(n.test.comparators[0], self.env) == s and pat.same(n.test.left, x):
+                if _norm(_container_root(n.test.comparators[0]), self.env) == s and pat.same(n.test.left, x):
                     if au.raises(n.body, NORET):
                         return True
         return False
@@ -75,9 +89,9 @@ class PairClient(Client):
         for c in au.calls_in(node.ast):
             f = c.func
             if isinstance(f, ast.Attribute) and _norm(f.value, self.v.env) == self.s:
-                if f.attr == "add":
+                if f.attr in ("add", "append"):
                     w = w | {"HELD"}
-                elif f.attr in ("remove", "discard", "clear"):
+                elif f.attr in ("remove", "discard", "clear", "pop"):
                     w = w - {"HELD"}
         return [w]
 
